@@ -8,18 +8,20 @@ def rules : Rules := {}
 def txStep (s : St) (ws : List String) : St × String :=
   match ws with
   | ["tx", prices, units, sponsor, now, ts, maxFee, cid, auth, scope, actions] =>
-    match parseDims prices, parseDims units, parseHex sponsor, parseInt now, parseInt ts,
+    match parseDims prices, (if units == "err" then some none else (parseDims units).map some), parseHex sponsor, parseInt now, parseInt ts,
       parseNat maxFee, parseRange auth, parseScope scope, parseActions actions with
     | some prices, some units, some sponsor, some now, some ts, some maxFee, some (as, ae),
       some scope, some actions =>
       if !s.live || (cid != "0" && cid != "1") || sponsor.length != 33
           || (actions.isEmpty && !scope.isEmpty) then (s, "bad-op") else
-      let tx : Tx := { sponsor, actions, units := some units, maxFee,
+      let tx : Tx := { sponsor, actions, units := units, maxFee,
                        chainID := if cid == "0" then rules.chainID else rules.chainID + 1,
                        timestamp := ts, authStart := as, authStop := ae }
       let sc := scopeOf scope [(s.h.key sponsor, permWrite)]
       let (b', o) := processTxB rules s.h prices now sc tx s.blk
-      ({ s with blk := b' }, outcomeString s.univ b'.visible o ++ " diff=" ++ diffString s.univ b')
+      let done := match o with | .done _ => true | _ => false
+      ({ (s.push prices now sc tx done) with blk := b' },
+        outcomeString s.univ b'.visible o ++ " diff=" ++ diffString s.univ b')
     | _, _, _, _, _, _, _, _, _ => (s, "bad-op")
   | _ => (s, "bad-op")
 
@@ -29,6 +31,7 @@ def step (s : St) (ws : List String) : St × String :=
     match reset h u i with
     | some s' => (s', "ok")
     | none => ({ s with live := false }, "bad-op")
+  | ["block"] => if s.live then (s, blockString rules s) else (s, "bad-op")
   | _ => txStep s ws
 
 def machine : Machine := { σ := St, init := {}, step := step }
